@@ -167,6 +167,15 @@ CHECKS["C26"] = ("model_checking",
     "of departed agents and prints orphaned computations, candidate agents, the per-candidate info triples and the value of each of the four repair constraints on every 0/1 "
     "assignment of its scope; the real _removal_* functions run on a real Discovery object with that state and the real create_*_constraint relations (variables built as "
     "ResilientAgent.setup_repair builds them) are evaluated on every assignment.", _NC, "DESIGN.md section 4 C26")
+
+CHECKS["C25"] = ("model_checking",
+    "TLC-drawn deployments replicated on real ResilientAgents through the real Orchestrator (deterministic agent-step runtime, seeded interleavings); outcome and every acceptance judged by TLC against Replication.tla (Judge_C25)",
+    "TLC draws the DCOP (Gen_Dcop, 9 shapes) and the deployment (Gen_C25: capacities from tight to ample, symmetric route costs, hosting costs, placement, k in 1..3) for 3-4 "
+    "(quick) / 3-6 agents sharing one process; the DSA computations are deployed through the real orchestrator and replicated with dist_ucs_hostingcosts under seeded "
+    "interleavings of agent loop iterations; every _accept_replica call is recorded with what the agent held; TLC checks: all agents report done, hosts distinct, not the "
+    "owner, at most k, recorded in the directory and actually held, and each acceptance satisfies remaining capacity >= footprint + worst case for k-1 owners.",
+    "Trusted: TLC (Replication.tla), vlib/orchrt.py + vlib/agentrt.py, the recorder around _accept_replica. Interleavings are sampled; the UCS search itself (budgets, "
+    "paths) is not modelled step by step (DESIGN.md section 5).", "DESIGN.md section 4 C25")
 NOT_YET = "check not built yet in this snapshot (work in progress, see DESIGN.md section 9)"
 
 fix_commits = subprocess.run(["git", "-C", "/repo", "log", "--format=%h %s", "aeaae91..HEAD"], capture_output=True, text=True).stdout.splitlines()
